@@ -223,7 +223,10 @@ pub fn configs(thorough: bool) -> Vec<Config> {
     let mut v = vec![];
     let mut add = |n: usize, ps: Vec<Poller>| {
         let name = format!("n{n}:{}", ps.iter().map(|p| p.tag()).collect::<Vec<_>>().join("|"));
-        v.push(Config::new(name, Bound::Tier, move || body(n, &ps)));
+        // the writer + one poller thread, few operations: small enough to explore without preemption bound
+        let polls: usize = ps.iter().map(|p| match p { Poller::WatcherMain(k) | Poller::WatcherOwn(k) | Poller::WatcherUntyped(k) | Poller::Global(k) => *k, Poller::Both(k) => 2 * *k }).sum();
+        let bound = if ps.len() == 1 && n <= 2 && polls <= 2 { Bound::Unbounded } else { Bound::Tier };
+        v.push(Config::new(name, bound, move || body(n, &ps)));
     };
     // simplest first
     for n in [1usize, 2] {
@@ -241,7 +244,8 @@ pub fn configs(thorough: bool) -> Vec<Config> {
     add(2, vec![Global(3)]);
     add(2, vec![Both(2)]);
     add(2, vec![WatcherMain(2), Global(2)]);
-    if thorough {
+    let _ = thorough; // same configs in both tiers; the tiers differ in the preemption bound
+    {
         add(3, vec![WatcherMain(3)]);
         add(3, vec![WatcherOwn(3)]);
         add(3, vec![Global(3)]);
